@@ -1,6 +1,7 @@
 package gen
 
 import (
+	"fmt"
 	"log/slog"
 	"math/big"
 	"reflect"
@@ -313,3 +314,32 @@ func Catalog() []T {
 	}
 	return out
 }
+
+// User types with their own MarshalJSON: in C04's domain only together with a TypeSchemas entry.
+type (
+	Celsius float64
+	Flag    struct{ on bool }
+	Stamp   struct{ T int64 }
+	// UserTypes uses them in every position.
+	UserTypes struct {
+		V  Celsius
+		P  *Celsius
+		S  []Celsius
+		M  map[string]Celsius
+		A  [2]Celsius
+		F  Flag  `json:"f"`
+		PF *Flag `json:"pf,omitempty"`
+		SS []*Stamp
+	}
+)
+
+func (c Celsius) MarshalJSON() ([]byte, error) {
+	return []byte(fmt.Sprintf("\"%.1fC\"", float64(c))), nil
+}
+func (f Flag) MarshalJSON() ([]byte, error) {
+	if f.on {
+		return []byte("true"), nil
+	}
+	return []byte("false"), nil
+}
+func (s Stamp) MarshalJSON() ([]byte, error) { return []byte(fmt.Sprintf("[%d]", s.T)), nil }
